@@ -28,21 +28,19 @@ Section TracerFacts2.
   Notation ready := (ready num).
 
   (* ---------------------------------------------------------------- names of a Trace after some pushes *)
+  (* since fix 7d04ae5: as soon as one snapshot is pushed, the Trace carries the names pushed NOW — whatever it held *)
   Lemma pushes_names names reset (X : trace) l :
-    tr_names (pushes num names reset X l)
-    = match l with
-      | [] => tr_names X
-      | _ :: _ => if is_empty num X || reset then names else tr_names X
-      end.
+    l <> [] -> tr_names (pushes num names reset X l) = names.
   Proof.
-    destruct l as [|e l]; [reflexivity|].
+    destruct l as [|e l]; [congruence|]. intros _.
     destruct reset.
-    - rewrite orb_true_r.
-      destruct (@exists_last _ (e :: l)) as (l' & e' & E); [discriminate|]. rewrite E.
+    - destruct (@exists_last _ (e :: l)) as (l' & e' & E); [discriminate|]. rewrite E.
       rewrite pushes_reset. reflexivity.
-    - rewrite orb_false_r. destruct (is_empty num X) eqn:HX.
-      + rewrite pushes_from_empty by exact HX. reflexivity.
-      + rewrite pushes_append; [reflexivity|].
+    - destruct (afresh num X false names) eqn:HX.
+      + rewrite (pushes_afresh num names false X e l HX eq_refl). reflexivity.
+      + unfold afresh in HX. apply orb_false_elim in HX. destruct HX as [HX Hn]. apply orb_false_elim in HX. destruct HX as [HX _].
+        apply negb_false_iff in Hn. apply names_eqb_eq in Hn.
+        rewrite pushes_append; [exact Hn| |exact Hn].
         unfold Tracer.is_empty in HX. destruct (tr_values X); [discriminate HX|discriminate].
   Qed.
 
@@ -53,34 +51,34 @@ Section TracerFacts2.
     Hypothesis before_shape : shape_pres before.
     Hypothesis after_shape : shape_pres after.
 
-    (* The names a period's Trace carries after a traced run that returned (or failed to converge): those of THIS
-       call when the Trace was empty or reset=True, otherwise those of the call that created the Trace. *)
+    (* The names a period's Trace carries after a traced run that returned (or failed to converge): ALWAYS those of this
+       call (fix 7d04ae5; before it a Trace recorded for other names of the same number kept its old names — the former
+       stale-names finding). *)
     Theorem trace_names_after_run reset d o t s tr p s' tr' out :
       truthy a = true ->
       names_valid (vals_of s) t (names_of cfg (length (vals_of s)) a) ->
       py_pos (length tr) t = Some p -> length tr = length (status s) ->
-      reset = true \/ width_ok (nth p tr empty_trace) (length (names_of cfg (length (vals_of s)) a)) ->
+      reset = true \/ width_ok (nth p tr empty_trace) (names_of cfg (length (vals_of s)) a) ->
       traced_solve_t cfg a reset ev before after d o t s tr = ((s', tr'), out) ->
       out = Ret true \/ out = Ret false \/ out = Raise NonConvergenceError ->
-      tr_names (nth p tr' empty_trace)
-      = if is_empty num (nth p tr empty_trace) || reset then names_of cfg (length (vals_of s)) a
-        else tr_names (nth p tr empty_trace).
+      tr_names (nth p tr' empty_trace) = names_of cfg (length (vals_of s)) a.
     Proof.
       intros Ha Hv Hp Hlen Hw Hrun Hout.
       destruct (trace_of_run num sub absf ltb isfin zero cfg a reset ev before after ev_shape before_shape after_shape
                   d o t s tr p s' tr' out Ha Hv Hp Hlen Hw Hrun Hout) as (k & x & _ & _ & _ & _ & _ & Htr).
-      rewrite Htr. rewrite pushes_names. reflexivity.
+      rewrite Htr. apply pushes_names. discriminate.
     Qed.
 
-    (* REPEATED SOLVES, default reset=False, the period traced before with as many names: the Trace keeps what it
-       held, and the run's labels start, before, 0, 1..k [, end] and snapshots are appended to it, in order.
-       Its `names` stay those of the earlier call. *)
+    (* REPEATED SOLVES, default reset=False, the period traced before under THE SAME names: the Trace keeps what it held,
+       and the run's labels start, before, 0, 1..k [, end] and snapshots are appended to it, in order.  (Under other
+       names the Trace starts afresh: trace_restarts_under_other_names.) *)
     Theorem trace_accumulates d o t s tr p s' tr' out :
       truthy a = true ->
       names_valid (vals_of s) t (names_of cfg (length (vals_of s)) a) ->
       py_pos (length tr) t = Some p -> length tr = length (status s) ->
       is_empty num (nth p tr empty_trace) = false ->
-      width_ok (nth p tr empty_trace) (length (names_of cfg (length (vals_of s)) a)) ->
+      tr_names (nth p tr empty_trace) = names_of cfg (length (vals_of s)) a ->
+      width_ok (nth p tr empty_trace) (names_of cfg (length (vals_of s)) a) ->
       traced_solve_t cfg a false ev before after d o t s tr = ((s', tr'), out) ->
       out = Ret true \/ out = Ret false \/ out = Raise NonConvergenceError ->
       let names := names_of cfg (length (vals_of s)) a in
@@ -97,12 +95,12 @@ Section TracerFacts2.
                :: map (fun j => snap (st_after num ev o t v1 j) t names) (seq 0 (S k))
                ++ (if st_eqb x Solved then [snap (vals_of s') t names] else [])).
     Proof.
-      intros Ha Hv Hp Hlen HX Hw Hrun Hout. cbv zeta.
+      intros Ha Hv Hp Hlen HX HN Hw Hrun Hout. cbv zeta.
       destruct (trace_of_run num sub absf ltb isfin zero cfg a false ev before after ev_shape before_shape after_shape
                   d o t s tr p s' tr' out Ha Hv Hp Hlen (or_intror Hw) Hrun Hout)
         as (k & x & Hst & Hit & Hx & _ & _ & Htr).
       exists k, x. split; [exact Hst|]. split; [exact Hit|]. split; [exact Hx|].
-      rewrite Htr. rewrite pushes_append.
+      rewrite Htr. rewrite pushes_append; [| |exact HN].
       2:{ unfold Tracer.is_empty in HX. destruct (tr_values (nth p tr empty_trace)); [discriminate HX|discriminate]. }
       unfold iter_entries, end_entry. cbn [app map fst snd].
       rewrite !map_app, !map_map. cbn [fst snd]. rewrite Nat.sub_0_r.
@@ -124,6 +122,95 @@ Section TracerFacts2.
       destruct l as [|e0 l0]; [inversion Hri|].
       destruct (@exists_last _ (e0 :: l0)) as (l' & e & E); [discriminate|].
       rewrite E in Htr. rewrite pushes_reset in Htr. exists (fst e), (snd e). exact Htr.
+    Qed.
+
+    (* an empty Trace, or one recorded for other names, accepts any snapshot of `names` *)
+    Lemma afresh_width_ok (X : trace) names : afresh num X false names = true -> width_ok X names.
+    Proof.
+      unfold afresh, TracerFacts.width_ok, Tracer.is_empty. destruct (tr_values X) as [|c cs]; [intros _; exact I|].
+      cbn [orb]. intros H E. apply negb_true_iff in H. rewrite E, names_eqb_refl in H. discriminate H.
+    Qed.
+
+    (* NON-INTERFERENCE WITHOUT A WIDTH GUARD (fixes 7d04ae5 + cfb58ac; replaces the refutation of finding #16): on
+       well-formed Traces — the only ones the class ever builds (tracer_init_spec, push_wf) — EVERY traced call with valid
+       names at a period of the span erases to the untraced call, whatever the period's Trace holds and whatever names it
+       was recorded for. *)
+    Theorem trace_noninterference_wf reset d o t s tr p :
+      names_valid (vals_of s) t (names_of cfg (length (vals_of s)) a) ->
+      py_pos (length tr) t = Some p ->
+      wf_trace num (nth p tr empty_trace) = true ->
+      let R := traced_solve_t cfg a reset ev before after d o t s tr in
+      (fst (fst R), snd R) = solve_t_M ev before after d o t s.
+    Proof.
+      intros Hv Hp Hwf. cbv zeta.
+      apply (trace_noninterference_solve_t num sub absf ltb isfin zero cfg a reset ev before after ev_shape before_shape after_shape).
+      intros _. split; [exact Hv|]. exists p. split; [exact Hp|]. right. apply wf_width_ok. exact Hwf.
+    Qed.
+
+    (* A PERIOD TRACED AGAIN UNDER OTHER NAMES STARTS AFRESH (replaces the refutations of finding #16 and of the stale-names
+       finding): default reset=False, the period's Trace empty OR recorded for other names (of any number), the period
+       solved: afterwards the Trace is exactly the trace of a first solve under the names traced now — labels start,
+       before, 0, 1..k, end, snapshot j = the traced variables after pass j, last = the stored solution; nothing of the
+       old recording is mixed in. *)
+    Theorem trace_shape_solved_afresh d o t s tr p s' tr' :
+      truthy a = true ->
+      names_valid (vals_of s) t (names_of cfg (length (vals_of s)) a) ->
+      py_pos (length tr) t = Some p -> length tr = length (status s) ->
+      afresh num (nth p tr empty_trace) false (names_of cfg (length (vals_of s)) a) = true ->
+      traced_solve_t cfg a false ev before after d o t s tr = ((s', tr'), Ret true) ->
+      let names := names_of cfg (length (vals_of s)) a in
+      let v0 := seeded num zero d o s p in
+      let v1 := fst (before t (errors o) (catch_first o) 0%nat v0) in
+      exists k, (1 <= k)%nat /\
+        status s' = upd p Solved (status s) /\ iters s' = upd p (Z.of_nat k) (iters s) /\
+        nth p tr' empty_trace
+        = mkTrace names
+            (LStart :: LBefore :: map LIter (seq 0 (S k)) ++ [LEnd])
+            (snap (vals_of s) t names :: snap v0 t names
+             :: map (fun j => snap (st_after num ev o t v1 j) t names) (seq 0 (S k)) ++ [snap (vals_of s') t names]).
+    Proof.
+      intros Ha Hv Hp Hlen HX Hrun. cbv zeta.
+      destruct (trace_of_run num sub absf ltb isfin zero cfg a false ev before after ev_shape before_shape after_shape
+                  d o t s tr p s' tr' _ Ha Hv Hp Hlen (or_intror (afresh_width_ok _ _ HX)) Hrun (or_introl eq_refl))
+        as (k & x & Hst & Hit & Hx & Hk & _ & Htr).
+      assert (x = Solved) by (apply Hx; reflexivity). subst x.
+      exists k. split; [apply Hk; reflexivity|]. split; [exact Hst|]. split; [exact Hit|].
+      rewrite Htr. cbn [app]. rewrite (pushes_afresh num _ false _ _ _ HX eq_refl).
+      unfold iter_entries, end_entry. cbn [st_eqb fst snd map]. rewrite !map_app, !map_map. cbn [fst snd map].
+      rewrite Nat.sub_0_r. reflexivity.
+    Qed.
+
+    (* ... unsolved: no 'end'; the fresh Trace stops after the last pass *)
+    Theorem trace_shape_unsolved_afresh d o t s tr p s' tr' out :
+      truthy a = true ->
+      names_valid (vals_of s) t (names_of cfg (length (vals_of s)) a) ->
+      py_pos (length tr) t = Some p -> length tr = length (status s) ->
+      afresh num (nth p tr empty_trace) false (names_of cfg (length (vals_of s)) a) = true ->
+      traced_solve_t cfg a false ev before after d o t s tr = ((s', tr'), out) ->
+      out = Ret false \/ out = Raise NonConvergenceError ->
+      let names := names_of cfg (length (vals_of s)) a in
+      let v0 := seeded num zero d o s p in
+      let v1 := fst (before t (errors o) (catch_first o) 0%nat v0) in
+      exists k x, x <> Solved /\
+        status s' = upd p x (status s) /\ iters s' = upd p (Z.of_nat k) (iters s) /\
+        vals_of s' = st_after num ev o t v1 k /\
+        nth p tr' empty_trace
+        = mkTrace names
+            (LStart :: LBefore :: map LIter (seq 0 (S k)))
+            (snap (vals_of s) t names :: snap v0 t names
+             :: map (fun j => snap (st_after num ev o t v1 j) t names) (seq 0 (S k))).
+    Proof.
+      intros Ha Hv Hp Hlen HX Hrun Hout. cbv zeta.
+      destruct (trace_of_run num sub absf ltb isfin zero cfg a false ev before after ev_shape before_shape after_shape
+                  d o t s tr p s' tr' out Ha Hv Hp Hlen (or_intror (afresh_width_ok _ _ HX)) Hrun (or_intror Hout))
+        as (k & x & Hst & Hit & Hx & _ & Hv' & Htr).
+      assert (Hns : x <> Solved).
+      { intros Q. apply Hx in Q. destruct Hout as [H|H]; rewrite H in Q; discriminate Q. }
+      exists k, x. split; [exact Hns|]. split; [exact Hst|]. split; [exact Hit|]. split; [apply Hv'; exact Hns|].
+      rewrite Htr. cbn [app]. rewrite (pushes_afresh num _ false _ _ _ HX eq_refl).
+      unfold iter_entries, end_entry. destruct x; try congruence;
+        cbn [st_eqb fst snd map]; rewrite !map_app, !map_map; cbn [fst snd map];
+        rewrite Nat.sub_0_r, !app_nil_r; reflexivity.
     Qed.
   End Runs.
   (* ---------------------------------------------------------------- solve(start=, end=) and solve_period(label) *)
